@@ -924,7 +924,7 @@ fn search_differential(seed: u64, budget: usize, want: Option<&str>) -> (usize, 
         &[("X-Amz-Target", "Svc.Op"), ("ETag", "\"abc\"")], &[("X-Amz-Security-Token", "tok/en+="), ("x-amz-security-token", "second")], &[("Content-Type", "text/plain")]];
     let dates = ["20150830T123600Z", "2015-08-30T12:36:00Z", "20150830T143600+0200", "2015-08-30T07:06:00.000-05:30", "20150830T123600,5Z", "20150830T123600", "2015-08-30 12:36:00Z", "20150830T123660Z", "20150230T123600Z", "20150830T122059Z", "20150830T125101Z", "20150830T125100Z", "20150830T122100Z",
         "20150830T125100.5Z", "20150830T122059.999999999Z", "20150830T125100.000000001Z", "20150830T122100.0Z", "20150831T003000+1200", "20150829T233600-1300", "2015-08-30T12:36:00+00:00", "20150830T123600-0000", "20150830T123600.Z", "20150830T123600+2400", "20150830t123600z", " 20150830T123600Z"];
-    let bodies: [&[u8]; 7] = [b"", b"a=3&c=4", b"x=%7E&x=~", b"\xEF\xBB\xBFa=b", b"a=%zz", b"\xff\xfe", b"k=v&&k2"];
+    let bodies: [&[u8]; 12] = [b"", b"a=3&c=4", b"x=%7E&x=~", b"\xEF\xBB\xBFa=b", b"a=%zz", b"\xff\xfe", b"k=v&&k2", b"b=2\n", b" a=1", b"a=1 ", b"\r\nz=9\r\n", b"a=b=c&d"];
     let ctypes = ["application/x-www-form-urlencoded", "application/x-www-form-urlencoded; charset=utf-8", "application/x-www-form-urlencoded;charset=UTF8", "application/x-www-form-urlencoded; Charset=klingon",
         "application/x-www-form-urlencoded ; boundary=x ; CHARSET=utf-8", "Application/X-WWW-Form-Urlencoded", "text/plain; charset=klingon", "application/x-www-form-urlencoded; charset"];
     let base_now = Utc.with_ymd_and_hms(2015, 8, 30, 12, 36, 0).unwrap();
@@ -990,7 +990,7 @@ fn search_differential(seed: u64, budget: usize, want: Option<&str>) -> (usize, 
         }
         // post-signing mutations (0-2)
         for _ in 0..pick(&mut x, 3) {
-            match pick(&mut x, 16) {
+            match pick(&mut x, 19) {
                 0 => { for h in r.headers.iter_mut() { if h.0 == "Authorization" { h.1.push('0'); } } }
                 1 => { r.headers.push(("X-Unsigned".into(), "v".into())); }
                 2 => { r.headers.push(("X-Amz-Meta-New".into(), "v".into())); }
@@ -1006,6 +1006,10 @@ fn search_differential(seed: u64, budget: usize, want: Option<&str>) -> (usize, 
                 12 => { r.headers.retain(|h| h.0 != "Host"); r.headers.insert(0, ("HOST".into(), " example.amazonaws.com ".into())); }
                 13 => { r.headers.push(("x-amz-date".into(), "20150830T000000Z".into())); }
                 14 => { r.body.extend(b"&t=1"); }
+                15 => { let v = ["AWS4-HMAC-SHA256,", "AWS4-HMAC-SHA256", "AWS4-HMAC-SHA256\t", "aws4-hmac-sha256 ", "AWS4-HMAC-SHA256X ", " AWS4-HMAC-SHA256 "][pick(&mut x, 6)];
+                        for h in r.headers.iter_mut() { if h.0 == "Authorization" { h.1 = h.1.replacen("AWS4-HMAC-SHA256 ", v, 1); } } }
+                16 => { for h in r.headers.iter_mut() { if h.0 == "Authorization" { h.1 = h.1.replace("Credential=", ["credential=", "Credential =", "Credential==", ",Credential="][pick(&mut x, 4)]); } } }
+                17 => { for h in r.headers.iter_mut() { if h.0 == "Authorization" { h.1 = h.1.replace("SignedHeaders=", "SignedHeaders=zz;"); } } }
                 _ => { r.method = if r.method == "GET" { "POST" } else { "GET" }; }
             }
         }
